@@ -2,6 +2,7 @@ import NxProofs.Gating
 import NxModel.Prudp.L1Crypto
 import NxProofs.MacInjective
 import NxProofs.CryptoAgree
+import NxProofs.Sys
 /-!
 # C04 — only correctly signed packets can affect a PRUDP connection
 
@@ -113,5 +114,54 @@ example :
     let bad : Packet := { type := TYPE_PING, flags := 6, packetId := 5, signature := some [9] }
     let good : Packet := { type := TYPE_PING, flags := 6, packetId := 5, signature := some [5] }
     bad.signature ≠ c.expectedSig toyEnv bad ∧ good.signature = c.expectedSig toyEnv good := by decide
+
+/-! ## the same, for whole sessions: forged packets can be deleted from any history without changing anything -/
+
+def isInject : SysOp → Bool
+  | .inject _ _ => true
+  | _ => false
+
+theorem inject_step_id (env : Env) (sub : Nat) (s : Sys) (now : Time) (p : Packet)
+    (hok : s.opOk env sub (.inject now p) = true) : s.step env sub (.inject now p) = s := by
+  simp only [Sys.opOk, decide_eq_true_eq] at hok
+  have := (handle_bad_signature env now s.b p hok).1
+  simp only [Sys.step, this]
+
+/-- **Non-interference over whole sessions.** Take any history of the two-endpoint system (sends fragment by fragment,
+    pings, disconnect, deliveries in any order and multiplicity through the whole receive path, acknowledgements, timers,
+    traffic of the other direction and other substreams) interleaved with arbitrarily many packets — of any type, flags, ids
+    and payload — whose signature is not the one the receiver expects at that moment. The final state of BOTH endpoints, the
+    network log, what was accepted and what was delivered are exactly those of the history with the forged packets deleted;
+    and the step hypotheses of the genuine steps are not affected by the deletion either. -/
+theorem forged_packets_can_be_deleted (env : Env) (sub : Nat) : ∀ (ops : List SysOp) (s : Sys), Sys.runOk env sub s ops = true →
+    Sys.run env sub s ops = Sys.run env sub s (ops.filter (fun o => !isInject o)) ∧
+    Sys.runOk env sub s (ops.filter (fun o => !isInject o)) = true := by
+  intro ops
+  induction ops with
+  | nil => intro s _; exact ⟨rfl, rfl⟩
+  | cons op ops ih =>
+    intro s hok
+    simp only [Sys.runOk, Bool.and_eq_true] at hok
+    cases hi : isInject op with
+    | true =>
+      cases op with
+      | inject now p =>
+        have hid := inject_step_id env sub s now p hok.1
+        have h2 := hok.2
+        rw [hid] at h2
+        have := ih s h2
+        simp only [List.filter_cons, hi, Bool.not_true, Bool.false_eq_true, if_false]
+        refine ⟨?_, this.2⟩
+        show Sys.run env sub (s.step env sub (.inject now p)) ops = _
+        rw [hid]; exact this.1
+      | _ => cases hi
+    | false =>
+      have := ih (s.step env sub op) hok.2
+      simp only [List.filter_cons, hi, Bool.not_false, if_true]
+      refine ⟨?_, ?_⟩
+      · show Sys.run env sub (s.step env sub op) ops = Sys.run env sub (s.step env sub op) _
+        exact this.1
+      · simp only [Sys.runOk, hok.1, Bool.true_and]
+        exact this.2
 
 end Nx.C04
